@@ -41,6 +41,7 @@ import ast
 from pathlib import Path
 
 from .pyexpr import TieBroken, sha
+from .normalize import parse as norm_parse
 
 OUT = 'Locks.lean'
 
@@ -142,7 +143,7 @@ class Extractor:
         for p in sorted(root.rglob('*.py')):
             rel = str(p.relative_to(self.repo))
             src = p.read_text()
-            tree = ast.parse(src)
+            tree = norm_parse(src, rel)
             self.files[rel] = tree
             self.sources[rel] = src
             imps = {}
